@@ -120,6 +120,16 @@ def parseOp (j : Json) : Except String Op := do
   | "sortCycle" => return .sortCycle
   | _ => throw s!"unknown kernel op {o}"
 
+def parseAny (j : Json) : Except String AnyOp := do
+  let o ← getStr j "op"
+  match o with
+  | "rauwMany" => return .conv (.rauwMany (← getNatList j "vs") (← getNatList j "rs") (← getBool j "rgo"))
+  | "renameValues" => return .conv (.renameValues (← getNatList j "vs") (← getStrs j "names"))
+  | "replaceNodesAndValues" =>
+    return .conv (.replaceNodesAndValues (← getNat j "g") (← getNat j "ip") (← getNatList j "oldNodes")
+      (← getNatList j "newNodes") (← getNatList j "oldVals") (← getNatList j "newVals"))
+  | _ => return .one (← parseOp j)
+
 def pairsJ (xs : List (Nat × Nat)) : Json :=
   Json.arr (xs.map (fun p => Json.arr #[natJ p.1, natJ p.2])).toArray
 
@@ -163,11 +173,11 @@ def deltaJ (w w' : World) : Json :=
     ("graphs", deltaStore graphJ w.graphs w'.graphs),
     ("tensors", deltaStore (optJ Json.str) w.tensors w'.tensors)]
 
-def runOps (ops : List Op) : List Json :=
-  let rec go (w : World) : List Op → List Json
+def runOps (ops : List AnyOp) : List Json :=
+  let rec go (w : World) : List AnyOp → List Json
     | [] => []
     | op :: rest =>
-      let (w', out) := step w op
+      let (w', out) := stepAny w op
       let (o, k) := match out with
         | .ok => ("ok", "")
         | .raised k => ("raised", k)
@@ -178,7 +188,7 @@ def runOps (ops : List Op) : List Json :=
 def handle : Handler := fun m j =>
   match m with
   | "kernel.run" => some do
-      let ops ← (← getArr j "ops").mapM parseOp
+      let ops ← (← getArr j "ops").mapM parseAny
       return obj [("steps", Json.arr (runOps ops).toArray)]
   | _ => none
 
